@@ -30,8 +30,9 @@ def tasks(tier, seed):
         func("bt.core.Node._set_root"), func("bt.core.Node.use_integer_positions"), func("bt.core.StrategyBase.set_commissions"),
         func("bt.core.StrategyBase._create_child_if_needed"),
         func("bt.backtest.Backtest.run"),
-        dict(kind="custom", module="props.misc_tasks", fn="c09_constants"),
+        dict(kind="custom", module="props.misc_tasks", fn="c09_constants"), dict(kind="custom", module="props.misc_tasks", fn="backtest_init_task"),
         dict(kind="custom", module="props.c19_tasks", fn="universe_scope_task"),
+        dict(kind="custom", module="props.c04_tasks", fn="setup_clauses"),
         *UPDATE_ALL,
         dict(kind="custom", module="props.bounded", fn="run_script", script="c19_tree", seed=seed, n=40 if tier == "quick" else 600, props=["C19"]),
     ]
